@@ -330,13 +330,9 @@ fn state_model(names: &[String]) -> Arc<StateModel> {
     ))
 }
 
-fn build_cm(c: &Case, sm: Arc<StateModel>) -> Result<CostModel, String> {
+/// the configured service (CostModelBuilder::build from configuration JSON)
+fn build_service(c: &Case) -> Result<routee_compass::app::compass::config::cost_model::cost_model_service::CostModelService, String> {
     let nmap: HashMap<String, NetworkCostRate> = c.n.iter().map(|(k, r)| (k.clone(), to_nr(r))).collect();
-    if !c.glue {
-        let w: HashMap<String, f64> = c.w.iter().cloned().collect();
-        let v: HashMap<String, VehicleCostRate> = c.v.iter().map(|(k, r)| (k.clone(), to_vr(r))).collect();
-        return CostModel::new(Arc::new(w), Arc::new(v), Arc::new(nmap), agg_of(c.mul), sm).map_err(|e| class(format!("{:?}", e)));
-    }
     // configuration glue: weights, (flat) vehicle rates, (flat) network rates, aggregation and the ignore flag
     // travel as JSON; Combined rates (serde cannot read an internally tagged sequence variant) are put into the
     // service's public fields
@@ -366,17 +362,31 @@ fn build_cm(c: &Case, sm: Arc<StateModel>) -> Result<CostModel, String> {
     if !net_via_json {
         svc.network_rates = Arc::new(nmap);
     }
-    let mut q = json!({"origin_vertex": 0});
-    if let Some(w) = &c.qw {
-        q["weights"] = obj(w, |x| json!(x));
+    Ok(svc)
+}
+type Query = (Option<Vec<(String, f64)>>, Option<Vec<(String, VR)>>, Option<bool>);
+fn query_json(q: &Query) -> Value {
+    let mut j = json!({"origin_vertex": 0});
+    if let Some(w) = &q.0 {
+        j["weights"] = obj(w, |x| json!(x));
     }
-    if let Some(v) = &c.qv {
-        q["vehicle_rates"] = obj(v, vr_config_json);
+    if let Some(v) = &q.1 {
+        j["vehicle_rates"] = obj(v, vr_config_json);
     }
-    if let Some(m) = c.qmul {
-        q["cost_aggregation"] = json!(if m { "mul" } else { "sum" });
+    if let Some(m) = q.2 {
+        j["cost_aggregation"] = json!(if m { "mul" } else { "sum" });
     }
-    svc.build(&q, sm).map_err(|e| class(format!("{:?}", e)))
+    j
+}
+fn build_cm(c: &Case, sm: Arc<StateModel>) -> Result<CostModel, String> {
+    if !c.glue {
+        let nmap: HashMap<String, NetworkCostRate> = c.n.iter().map(|(k, r)| (k.clone(), to_nr(r))).collect();
+        let w: HashMap<String, f64> = c.w.iter().cloned().collect();
+        let v: HashMap<String, VehicleCostRate> = c.v.iter().map(|(k, r)| (k.clone(), to_vr(r))).collect();
+        return CostModel::new(Arc::new(w), Arc::new(v), Arc::new(nmap), agg_of(c.mul), sm).map_err(|e| class(format!("{:?}", e)));
+    }
+    let svc = build_service(c)?;
+    svc.build(&query_json(&(c.qw.clone(), c.qv.clone(), c.qmul)), sm).map_err(|e| class(format!("{:?}", e)))
 }
 
 struct SetState {
@@ -1484,6 +1494,149 @@ fn builder_stream(a: &Args, st: &mut Stream) {
     let _ = std::fs::remove_dir_all(&dir);
 }
 
+// ================================================================ stream `svc`: query SEQUENCES on ONE CostModelService
+
+fn coq_query(q: &Query) -> String {
+    format!("({}, {}, {})", coq_opt(&q.0, |m| coq_wmap(m)), coq_opt(&q.1, |m| coq_vmap(m)), coq_opt(&q.2, |m| coq_agg(*m).to_string()))
+}
+fn query_j(q: &Query) -> Value {
+    json!({"qw": q.0.as_ref().map(|m| wmap_j(m)), "qv": q.1.as_ref().map(|m| vmap_j(m)), "qmul": q.2})
+}
+fn j_query(v: &Value) -> Query {
+    (if v["qw"].is_null() { None } else { Some(j_wmap(&v["qw"])) }, if v["qv"].is_null() { None } else { Some(j_vmap(&v["qv"])) }, v["qmul"].as_bool())
+}
+type RQ = Result<(R1, R1), String>;
+fn run_svc_impl(c: &Case, qs: &[Query]) -> Result<Vec<RQ>, String> {
+    let sm = state_model(&c.names);
+    let svc = build_service(c)?; // ONE service for all queries
+    let g = graph();
+    let sv = |l: &[f64]| l.iter().map(|x| StateVar(*x)).collect::<Vec<_>>();
+    let (p, st) = (sv(&c.p), sv(&c.st));
+    let (e_this, e_other) = (*g.get_edge(&EdgeId(c.this)).unwrap(), *g.get_edge(&EdgeId(c.other)).unwrap());
+    let r1 = |r: Result<Cost, routee_compass_core::model::cost::cost_model_error::CostModelError>| -> R1 {
+        r.map(|x| x.as_f64()).map_err(|e| class(format!("{:?}", e)))
+    };
+    Ok(qs
+        .iter()
+        .map(|q| {
+            let cm = svc.build(&query_json(q), sm.clone()).map_err(|e| class(format!("{:?}", e)))?;
+            Ok((r1(cm.traversal_cost(&e_this, &p, &st)), r1(cm.edge_cost(Some((&e_other, &e_this)), &e_this, &p, &st))))
+        })
+        .collect())
+}
+fn add_svc(st: &mut Stream, mut c: Case, qs: Vec<Query>, family: &str) {
+    c.glue = true;
+    c.qw = None;
+    c.qv = None;
+    c.qmul = None;
+    let id = st.next_id();
+    let (cc, qq) = (c.clone(), qs.clone());
+    let out: Result<Vec<RQ>, String> = match catch(move || run_svc_impl(&cc, &qq)) {
+        Ok(r) => r,
+        Err(_) => Err("Panic".into()),
+    };
+    let show_rq = |r: &RQ| match r {
+        Ok((a, b)) => format!("Ok ({};{})", show_r1(a), show_r1(b)),
+        Err(e) => format!("Err {}", e),
+    };
+    let coq_rq = |r: &RQ| match r {
+        Ok((a, b)) => format!("(Ok ({}, {}))", coq_r1(a), coq_r1(b)),
+        Err(e) => format!("(Err {})", coq_string(e)),
+    };
+    let (show, coq) = match &out {
+        Ok(l) => (format!("svc=Ok {}", show_list(l, show_rq)), format!("(@Ok (list (res (res float * res float))) {})", coq_list(l, coq_rq))),
+        Err(e) => (format!("svc=Err {}", e), format!("(@Err (list (res (res float * res float))) {})", coq_string(e))),
+    };
+    let cq = coq_case(&c);
+    let ql = format!("({} : list (option (list (string * float)) * option (list (string * vrate float)) * option agg))", coq_list(&qs, coq_query));
+    let terms = vec![
+        format!("line_msvc {} {} {}", coq_z(id as i128), cq, ql),
+        format!("line_ssvc {} {} {} {}", coq_z(id as i128), cq, ql, coq),
+    ];
+    st.count(&format!("family:{}", family));
+    st.count(&format!("queries:{}", qs.len()));
+    // non-trivial: two queries with the same weights override differ in vehicle_rates or cost_aggregation
+    let mut same_w_diff = false;
+    for i in 0..qs.len() {
+        for j in 0..i {
+            let same_w = match (&qs[i].0, &qs[j].0) {
+                (None, None) => true,
+                (Some(a), Some(b)) => a.len() == b.len() && a.iter().zip(b.iter()).all(|(x, y)| x.0 == y.0 && x.1.to_bits() == y.1.to_bits()),
+                _ => false,
+            };
+            if same_w && (qs[i].1 != qs[j].1 || qs[i].2 != qs[j].2) {
+                same_w_diff = true;
+            }
+        }
+    }
+    if same_w_diff {
+        st.count("same_weights_different_rates_or_aggregation");
+        st.mark_nontrivial(&format!("{}{:?}", case_j(&c), qs));
+    }
+    let desc = json!({"id": id, "family": family, "case": case_j(&c), "queries": qs.iter().map(query_j).collect::<Vec<_>>(),
+        "readable": format!("{:?} queries {:?}", c, qs)});
+    st.case(terms, vec![format!("I {} {}", id, show)], desc);
+}
+fn svc_stream(a: &Args, st: &mut Stream) {
+    // the C07-17 witness: two features, the product of the per-feature costs is negative (floor under mul, 1.0 under sum)
+    let base = || {
+        let mut c = simple(2, vec![1.0, 1.0], vec![VR::Raw, VR::Raw], vec![NR::Zero, NR::Zero], false, vec![0.0, 0.0], vec![2.0, -1.0]);
+        c.sa = vec![0.0, 0.0];
+        c
+    };
+    let plain: Query = (None, None, None);
+    let factor: Query = (None, Some(vec![("distance".to_string(), VR::Factor(2.0)), ("time".to_string(), VR::Raw)]), None);
+    let mulq: Query = (None, None, Some(true));
+    let w1 = Some(vec![("distance".to_string(), 1.0), ("time".to_string(), 1.0)]);
+    for order in [vec![plain.clone(), factor.clone(), mulq.clone()], vec![factor.clone(), plain.clone()], vec![mulq.clone(), plain.clone(), factor.clone()], vec![plain.clone(), plain.clone()]] {
+        add_svc(st, base(), order.clone(), "same_weights_witness");
+        // the same with an explicit (identical) weights override in every query
+        add_svc(st, base(), order.into_iter().map(|q| (w1.clone(), q.1, q.2)).collect(), "same_weights_witness");
+    }
+    // weights differ: never shared
+    add_svc(st, base(), vec![(w1.clone(), None, None), (Some(vec![("distance".to_string(), 3.0)]), factor.1.clone(), Some(true)), (w1.clone(), factor.1.clone(), None)], "different_weights");
+    // configured aggregation mul, queries switch it back and forth
+    let mut c = base();
+    c.mul = true;
+    c.st = vec![2.0, 3.0];
+    add_svc(st, c, vec![plain.clone(), (None, None, Some(false)), plain.clone(), factor.clone(), (None, factor.1.clone(), Some(false))], "configured_mul");
+    let mut rng = Rng::new(a.seed ^ 0x5c17);
+    while st.next_id() < a.n {
+        let mut r = rng.fork();
+        let c = random_case(&mut r);
+        let nq = 2 + r.below(3) as usize;
+        let shared_w: Option<Vec<(String, f64)>> = if r.chance(1, 2) {
+            let mut m = vec![];
+            for x in &c.names {
+                if r.chance(4, 5) {
+                    m.push((x.clone(), weight(&mut r).abs() + 0.5));
+                }
+            }
+            Some(m)
+        } else {
+            None
+        };
+        let mut qs: Vec<Query> = vec![];
+        for _ in 0..nq {
+            let qw = if r.chance(5, 6) { shared_w.clone() } else { Some(vec![(c.names.get(0).cloned().unwrap_or("distance".into()), weight(&mut r))]) };
+            let qv = if r.chance(1, 2) {
+                let mut m = vec![];
+                for x in &c.names {
+                    if r.chance(3, 4) {
+                        m.push((x.clone(), gen_vr(&mut r, 0)));
+                    }
+                }
+                Some(m)
+            } else {
+                None
+            };
+            let qm = if r.chance(1, 2) { Some(r.chance(1, 2)) } else { None };
+            qs.push((qw, qv, qm));
+        }
+        add_svc(st, c, qs, "random");
+    }
+}
+
 const HEADER: &str = "From Coq Require Import ZArith List String Floats.\nFrom RC Require Import Base.Show Base.Res Model.Cost Model.CostRun.\nImport ListNotations.\nImport Cost CostRun.";
 
 fn main() {
@@ -1502,6 +1655,19 @@ fn main() {
             add_seq(&mut st, j_case(&case["case"]), case["calls"].as_array().unwrap().iter().map(j_call).collect(), case["family"].as_str().unwrap_or("replay"));
         } else {
             seq_stream(&a, &mut st);
+        }
+        st.finish();
+        return;
+    }
+    if a.stream == "svc" {
+        let mut st = Stream::new(&a.out, "svc", HEADER, a.shards);
+        if let Some(p) = &a.replay {
+            st.full = true;
+            let v: Value = serde_json::from_str(&std::fs::read_to_string(p).unwrap()).unwrap();
+            let case = &v["case"];
+            add_svc(&mut st, j_case(&case["case"]), case["queries"].as_array().unwrap().iter().map(j_query).collect(), case["family"].as_str().unwrap_or("replay"));
+        } else {
+            svc_stream(&a, &mut st);
         }
         st.finish();
         return;
